@@ -358,7 +358,11 @@ func (p *ProjectRunner) getDoneOrRunningProcess(name string) *Process {
 func (p *ProjectRunner) removeRunningProcess(process *Process) {
 	verif.Block("lock:runProc", func() bool { return verifLockFree(&p.runProcMutex) })
 	p.runProcMutex.Lock()
-	delete(p.runningProcesses, process.getName())
+	// only the instance that is registered may unregister itself: after a restart the name
+	// already belongs to the new instance
+	if p.runningProcesses[process.getName()] == process {
+		delete(p.runningProcesses, process.getName())
+	}
 	p.runProcMutex.Unlock()
 }
 
